@@ -296,7 +296,10 @@ class TimerWorld(pipe.PipeWorld):
                              f'firings of {alg}: {[t.isoformat() for t in times][:6]}, defer calls {self.defer_calls}, defer error {self.defer_error})')
             # boot: exactly once per process
             if boots:
-                nboot = sum(1 for t in times if not [x for x in occ if abs((x - t).total_seconds()) <= WINDOW + 1.0])
+                # a firing at the instant of a (re)load is the boot event's, even when an occurrence of another event of the
+                # same algorithm lies within the window (one evaluation fires the node once for both: observed as one)
+                nboot = sum(1 for t in times if any(abs((t - l).total_seconds()) < 1.0 for l in self.loads)
+                            or not [x for x in occ if abs((x - t).total_seconds()) <= WINDOW + 1.0])
                 self.probes['boot_event_engine'] += 1
                 if nboot != 1:
                     first = self.defer_log[0][1].get(alg) if self.defer_log else None
